@@ -132,6 +132,8 @@ func c10Case(e *emitter, expr string, bucket string) {
 func runC10(c *runCtx) error {
 	r := newRng(c.seed)
 	header := "From Coq Require Import List String ZArith.\nFrom KV Require Import Base.Bytes Model.Ast Model.Value Corr.EvalCommon Corr.C10.\nImport ListNotations.\nOpen Scope string_scope.\n"
+	// json() cases (c10json.go) are XJCase terms of Corr/C10.v's xcase; the cases of this file are embedded
+	header += "From KV Require Import Corr.C10Json.\nNotation case := xcase (only parsing).\nNotation mismatches := xmismatches (only parsing).\nNotation Case := XCase (only parsing).\n"
 	e := newEmitter(c.out, "C10", header, 250)
 	e.m.Rule = "every documented scalar function applied to every combination of arguments from small pools (texts incl. empty and separators at the ends, integers incl. int64 extremes, exactly representable floats, lists in every representation), with constant and with row-dependent arguments, evaluated on 11 stored pairs; plus seeded random typed expressions of depth <= 3; non-trivial = accepted by the checker; distinct = distinct expression trees"
 	texts := []string{"''", "'a'", "'Ab,c'", "',a,'", "'12'", "'-7'", "'2.5'", "'abc'", "'9223372036854775807'", "'9223372036854775808'", "key", "value", "upper(value)"}
@@ -249,6 +251,7 @@ func runC10(c *runCtx) error {
 		t := pick(r, []gty{gStr, gInt, gFlt, gBool, gList})
 		c10Case(e, g.gen(t, 1+r.intn(3)), "random")
 	}
+	c10JsonStream(e, c, newRng(c.seed+0x10a))
 	return e.flush()
 }
 
